@@ -50,6 +50,8 @@ type CallRec struct {
 	Returned  bool
 	ErrKind   string // "nil" | "canceled" | "deadline" | "rsperror" | "other"
 	ErrText   string
+	IsCtxErr  bool   // the returned error is identical (==) to the caller context's Err()
+	IsCause   bool   // the returned error is context.Cause(ctx) and not ctx.Err()
 	Status    int    // RspError.StatusCode, or the http.Response status on success (ppr)
 	Body      string // RspError.Body, or the returned body on success (ppr)
 	Marker    uint64 // timestamp of the returned, parsed answer
@@ -221,6 +223,8 @@ type brokenReader struct{}
 
 func (brokenReader) Read([]byte) (int, error) { return 0, io.ErrUnexpectedEOF }
 
+var errForeignCause = errors.New("caller-supplied cancellation cause")
+
 var errScripted = errors.New("scripted network error: connection reset by peer")
 
 const goodSig = "\x04\x03\x00\x02\x01\x02" // DigitallySigned{sha256, ecdsa, 2 bytes}
@@ -375,6 +379,16 @@ func (rt *scriptedRT) RoundTrip(req *http.Request) (*http.Response, error) {
 		}
 		at := now.Add(d).UTC().Truncate(time.Second)
 		h.Set("Retry-After", at.Format(http.TimeFormat))
+		switch e.RA.Date {
+		case "now":
+			h.Set("Date", now.UTC().Format(http.TimeFormat))
+		case "ahead":
+			h.Set("Date", now.Add(time.Duration(e.RA.Skew)*time.Second).UTC().Format(http.TimeFormat))
+		case "behind":
+			h.Set("Date", now.Add(-time.Duration(e.RA.Skew)*time.Second).UTC().Format(http.TimeFormat))
+		case "garbage":
+			h.Set("Date", "yesterday, around noon")
+		}
 		if e.RA.Form == "date" {
 			notBefore = at
 		}
@@ -448,13 +462,33 @@ func run(t *testing.T, c Case, outp *Outcome) {
 				end := time.Duration(cc.EndMs) * time.Millisecond
 				switch cc.Ctx {
 				case "deadline":
-					ctx, cancel = context.WithDeadline(ctx, time.Now().Add(end))
+					switch cc.Cause {
+					case 0:
+						ctx, cancel = context.WithDeadline(ctx, time.Now().Add(end))
+					case 1:
+						ctx, cancel = context.WithDeadlineCause(ctx, time.Now().Add(end), errForeignCause)
+					default:
+						ctx, cancel = context.WithTimeoutCause(ctx, end, fmt.Errorf("budget spent: %w", context.DeadlineExceeded))
+					}
 				case "cancel":
-					ctx, cancel = context.WithCancel(ctx)
+					stop := func() {}
+					switch cc.Cause {
+					case 0:
+						ctx, stop = context.WithCancel(ctx)
+					case 1:
+						var cc2 context.CancelCauseFunc
+						ctx, cc2 = context.WithCancelCause(ctx)
+						stop = func() { cc2(errForeignCause) }
+					default:
+						var cc2 context.CancelCauseFunc
+						ctx, cc2 = context.WithCancelCause(ctx)
+						stop = func() { cc2(fmt.Errorf("operator gave up: %w", context.Canceled)) }
+					}
+					cancel = stop
 					if cc.EndMs < 0 {
-						cancel()
+						stop()
 					} else {
-						tm := time.AfterFunc(end, cancel)
+						tm := time.AfterFunc(end, stop)
 						defer tm.Stop()
 					}
 				}
@@ -490,6 +524,10 @@ func run(t *testing.T, c Case, outp *Outcome) {
 				}
 				rec.Return, rec.Returned = rt.since(), true
 				rec.ErrKind = classifyErr(cerr)
+				if cerr != nil && ctx.Err() != nil {
+					rec.IsCtxErr = cerr == ctx.Err()
+					rec.IsCause = !rec.IsCtxErr && cerr == context.Cause(ctx)
+				}
 				if cerr != nil {
 					rec.ErrText = cerr.Error()
 					var re jsonclient.RspError
